@@ -574,6 +574,24 @@ macro_rules! family {
                         };
                         if sg.looks_like_scheme() != want { bad.push("looks_like_scheme") }
                     }
+                    {
+                        // the same questions put to the owned form (an inherent method on the
+                        // buffer type shadows the one reached through `Deref`)
+                        let o = p.to_owned();
+                        if o.is_empty() != p.is_empty() { bad.push("owned_is_empty") }
+                        if o.is_absolute() != p.is_absolute() || o.is_relative() != p.is_relative() { bad.push("owned_is_absolute") }
+                        if o.segment_count() != p.segment_count() { bad.push("owned_segment_count") }
+                        if o.first().map(|s| bytes_of(s)) != p.first().map(|s| bytes_of(s)) { bad.push("owned_first") }
+                        if o.last().map(|s| bytes_of(s)) != p.last().map(|s| bytes_of(s)) { bad.push("owned_last") }
+                        if o.file_name().map(|s| bytes_of(s)) != p.file_name().map(|s| bytes_of(s)) { bad.push("owned_file_name") }
+                        if o.directory().as_bytes() != p.directory().as_bytes() { bad.push("owned_directory") }
+                        if o.parent().map(|x| x.as_bytes()) != p.parent().map(|x| x.as_bytes()) { bad.push("owned_parent") }
+                        if o.parent_or_empty().as_bytes() != p.parent_or_empty().as_bytes() { bad.push("owned_parent_or_empty") }
+                        if o.segments().map(|s| hex(bytes_of(s))).collect::<Vec<_>>() != segs { bad.push("owned_segments") }
+                        if o.normalized_segments().map(|s| hex(bytes_of(s))).collect::<Vec<_>>() != nsegs { bad.push("owned_normalized_segments") }
+                        if o.normalized().as_bytes() != p.normalized().as_bytes() { bad.push("owned_normalized") }
+                        if o.as_bytes() != p.as_bytes() || o.as_path().as_bytes() != p.as_bytes() { bad.push("owned_text") }
+                    }
                     if bad.is_empty() { n.to_string() } else { format!("BAD:{}", bad.join("+")) }
                 };
                 format!(
